@@ -9,9 +9,9 @@ read state handed to the application (and every released response) is a `SafeAns
 records, and that it stays valid forever.
 
 Structure of the proof:
-* `step_shape`: every event leaves `s.cmts` / `s.acks` alone or conses one element at the head, and
-  only read events touch `s.rd`; hence `cmtsAt` / `acksAt` below the old length are stable
-  (`cmtsAt_stable`, `acksAt_stable`) and every clause except `lcm` is transported (`invRd_transport`);
+* `step_shape`: every event leaves `s.cmts` / `s.acks` / `s.ccfgs` alone or conses one element at the
+  head (`ccfgs` in step with `cmts`), and only read events touch `s.rd`; hence `cmtsAt` / `acksAt` /
+  `ccfgsAt` below the old length are stable (`cmtsAt_stable`, `acksAt_stable`, `ccfgsAt_stable`) and every clause except `lcm` is transported (`invRd_transport`);
 * `lcm_step`: the clause `lcm` (a leader's commit index covers its own commits) for the 25 events;
 * `invRd_read`: the five read events (`start_covers`, `read_confirmed` are the two real arguments).
 -/
@@ -40,6 +40,18 @@ theorem acksAt_stable {s s' : PSys} (h : s'.acks = s.acks ∨ ∃ x, s'.acks = x
   · rw [h]
   · rw [h]; exact drop_cons_stable x _ n hn
 
+/-- the same for the configuration ghosts of the leader commits -/
+theorem ccfgsAt_stable {s s' : PSys} (h : s'.ccfgs = s.ccfgs ∨ ∃ x, s'.ccfgs = x :: s.ccfgs) {n : Nat}
+    (hn : n ≤ s.ccfgs.length) : ccfgsAt s' n = ccfgsAt s n := by
+  unfold ccfgsAt
+  rcases h with h | ⟨x, h⟩
+  · rw [h]
+  · rw [h]; exact drop_cons_stable x _ n hn
+
+/-- `ccfgs` is as long as `cmts` (they are consed in step) -/
+theorem ccfgs_length {s : PSys} (h3 : InvC3 s) : s.ccfgs.length = s.cmts.length := by
+  rw [← h3.cc, List.length_map]
+
 theorem cmtsAt_sub {s : PSys} {n : Nat} {p : Nat × Nat} (h : p ∈ cmtsAt s n) : p ∈ s.cmts := by
   unfold cmtsAt at h; exact List.mem_of_mem_drop h
 
@@ -48,6 +60,9 @@ theorem acksAt_sub {s : PSys} {n : Nat} {a : Ack} (h : a ∈ acksAt s n) : a ∈
 
 theorem cmtsAt_full (s : PSys) : cmtsAt s s.cmts.length = s.cmts := by
   unfold cmtsAt; rw [Nat.sub_self, List.drop_zero]
+
+theorem ccfgsAt_full (s : PSys) : ccfgsAt s s.ccfgs.length = s.ccfgs := by
+  unfold ccfgsAt; rw [Nat.sub_self, List.drop_zero]
 
 theorem acksAt_full (s : PSys) : acksAt s s.acks.length = s.acks := by
   unfold acksAt; rw [Nat.sub_self, List.drop_zero]
@@ -81,11 +96,12 @@ def Event.isRead : Event → Bool
 
 theorem addReleased_shape (s : PSys) (m : OMsg) :
     (addReleased s m).rd = s.rd ∧ (addReleased s m).cmts = s.cmts ∧
-    ((addReleased s m).acks = s.acks ∨ ∃ x, (addReleased s m).acks = x :: s.acks) := by
+    ((addReleased s m).acks = s.acks ∨ ∃ x, (addReleased s m).acks = x :: s.acks) ∧
+    (addReleased s m).ccfgs = s.ccfgs := by
   cases m with
-  | voteReq t c lt li => exact ⟨rfl, rfl, Or.inl rfl⟩
-  | grant t v c gh => exact ⟨rfl, rfl, Or.inl rfl⟩
-  | ack t f idx pre => exact ⟨rfl, rfl, Or.inr ⟨_, rfl⟩⟩
+  | voteReq t c lt li => exact ⟨rfl, rfl, Or.inl rfl, rfl⟩
+  | grant t v c gh => exact ⟨rfl, rfl, Or.inl rfl, rfl⟩
+  | ack t f idx pre => exact ⟨rfl, rfl, Or.inr ⟨_, rfl⟩, rfl⟩
 
 /-- a read-index event, unpacked -/
 theorem read_apply {s s' : PSys} {r : REvent} (h : applyEvent s (.read r) = .ok s') :
@@ -99,16 +115,17 @@ theorem read_apply {s s' : PSys} {r : REvent} (h : applyEvent s (.read r) = .ok 
 element per step -/
 theorem step_shape (s s' : PSys) (e : Event) (h : applyEvent s e = .ok s') :
     (e.isRead = false → s'.rd = s.rd) ∧ (s'.cmts = s.cmts ∨ ∃ x, s'.cmts = x :: s.cmts) ∧
-    (s'.acks = s.acks ∨ ∃ x, s'.acks = x :: s.acks) := by
+    (s'.acks = s.acks ∨ ∃ x, s'.acks = x :: s.acks) ∧
+    (s'.ccfgs = s.ccfgs ∨ ∃ x, s'.ccfgs = x :: s.ccfgs) := by
   cases e with
   | read r =>
     obtain ⟨rd, hs⟩ := read_frame h
     subst hs
-    exact ⟨fun h => by simp [Event.isRead] at h, Or.inl rfl, Or.inl rfl⟩
+    exact ⟨fun h => by simp [Event.isRead] at h, Or.inl rfl, Or.inl rfl, Or.inl rfl⟩
   | commitLeader i c cfg q =>
     simp only [applyEvent, ok] at h
     split at h
-    · cases h; exact ⟨fun _ => rfl, Or.inr ⟨_, rfl⟩, Or.inl rfl⟩
+    · cases h; exact ⟨fun _ => rfl, Or.inr ⟨_, rfl⟩, Or.inl rfl, Or.inr ⟨_, rfl⟩⟩
     · cases h
   | release i key =>
     simp only [applyEvent, ok] at h
@@ -116,14 +133,16 @@ theorem step_shape (s s' : PSys) (e : Event) (h : applyEvent s e = .ok s') :
     · split at h
       · split at h
         · cases h
-          exact ⟨fun _ => (addReleased_shape _ _).1, Or.inl (addReleased_shape _ _).2.1, (addReleased_shape _ _).2.2⟩
+          exact ⟨fun _ => (addReleased_shape _ _).1, Or.inl (addReleased_shape _ _).2.1, (addReleased_shape _ _).2.2.1,
+            Or.inl (addReleased_shape _ _).2.2.2⟩
         · cases h
       · cases h
     · split at h
       · split at h
         · split at h
           · cases h
-            exact ⟨fun _ => (addReleased_shape _ _).1, Or.inl (addReleased_shape _ _).2.1, (addReleased_shape _ _).2.2⟩
+            exact ⟨fun _ => (addReleased_shape _ _).1, Or.inl (addReleased_shape _ _).2.1, (addReleased_shape _ _).2.2.1,
+            Or.inl (addReleased_shape _ _).2.2.2⟩
           · cases h
         · cases h
       · cases h
@@ -131,7 +150,7 @@ theorem step_shape (s s' : PSys) (e : Event) (h : applyEvent s e = .ok s') :
     simp only [applyEvent, ok] at h
     split at h
     · split at h
-      · cases h; exact ⟨fun _ => rfl, Or.inl rfl, Or.inl rfl⟩
+      · cases h; exact ⟨fun _ => rfl, Or.inl rfl, Or.inl rfl, Or.inl rfl⟩
       · cases h
     · cases h
   | bump i t | campaign i | rdy i | crash i | restart i | stepDown i | sendApp i m | recvApp i m
@@ -139,7 +158,7 @@ theorem step_shape (s s' : PSys) (e : Event) (h : applyEvent s e = .ok s') :
   | commitClaim i m | sendHB i to c | claim i idx | sendSnap i idx | bootstrap i donor idx =>
     simp only [applyEvent, ok] at h
     split at h
-    · cases h; exact ⟨fun _ => rfl, Or.inl rfl, Or.inl rfl⟩
+    · cases h; exact ⟨fun _ => rfl, Or.inl rfl, Or.inl rfl, Or.inl rfl⟩
     · cases h
 
 /-! ### the clause `lcm`: a leader's commit index covers its own commits -/
@@ -174,19 +193,17 @@ theorem lcm_node {s s' : PSys} (h : Lcm s) (i : Nat) (n : PNode) (hn : s'.nodes 
   · simp only [upd, hji, if_false] at hj ht ⊢
     exact h j hj p hp ht
 
-theorem lcm_step (c0 : Cfg) (hne : c0.incoming ≠ [] ∨ c0.outgoing ≠ []) (s s' : PSys) (e : Event)
-    (hc : e.cfgOk c0) (h : applyEvent s e = .ok s') (hV : InvV c0 (vsys s)) (hL : InvL s)
-    (h3 : InvC3 c0 s) (hl : Lcm s) : Lcm s' := by
+theorem lcm_step (s s' : PSys) (e : Event)
+    (h : applyEvent s e = .ok s') (hV : InvV (vsys s)) (hL : InvL s)
+    (h3 : InvC3 s) (hl : Lcm s) : Lcm s' := by
   cases e with
   | read r =>
     obtain ⟨rd, hs⟩ := read_frame h
     subst hs
     exact hl
   | win i cfg q =>
-    simp only [Event.cfgOk] at hc
-    subst hc
-    obtain ⟨hrole, hq, hall, _, hs'⟩ := win_guard h
-    have hf := win_fresh cfg hne s hV hL i q hrole hq hall
+    obtain ⟨hrole, hq, hall, _, hs', _, hadj, _⟩ := win_guard h
+    have hf := win_fresh s hV hL i cfg q hrole hq hall hadj
     subst hs'
     intro j hj p hp ht
     by_cases hji : j = i
@@ -199,8 +216,6 @@ theorem lcm_step (c0 : Cfg) (hne : c0.incoming ≠ [] ∨ c0.outgoing ≠ []) (s
     · simp only [upd, hji, if_false] at hj ht ⊢
       exact hl j hj p hp ht
   | commitLeader i c cfg q =>
-    simp only [Event.cfgOk] at hc
-    subst hc
     simp only [applyEvent, ok] at h
     split at h
     · rename_i hg
@@ -219,7 +234,7 @@ theorem lcm_step (c0 : Cfg) (hne : c0.incoming ≠ [] ∨ c0.outgoing ≠ []) (s
         · exfalso
           apply hji
           rw [hp] at ht
-          exact leader_unique cfg hne (vsys s) hV i j (by simpa [vsys, vproj] using hg.2.1)
+          exact leader_unique (vsys s) hV i j (by simpa [vsys, vproj] using hg.2.1)
             (by simpa [vsys, vproj] using hj) (by simpa [vsys, vproj] using ht.symm)
         · exact hl j hj p hp ht
     · cases h
@@ -314,9 +329,13 @@ theorem lcm_step (c0 : Cfg) (hne : c0.incoming ≠ [] ∨ c0.outgoing ≠ []) (s
 
 /-! ### transport of the other clauses along a step that does not touch `s.rd` -/
 
-theorem invRd_transport {c0 : Cfg} {s s' : PSys} (hRd : InvRd c0 s) (hrd : s'.rd = s.rd)
+theorem invRd_transport {s s' : PSys} (hRd : InvRd s) (hrd : s'.rd = s.rd)
     (hcm : s'.cmts = s.cmts ∨ ∃ x, s'.cmts = x :: s.cmts)
-    (hak : s'.acks = s.acks ∨ ∃ x, s'.acks = x :: s.acks) (hl : Lcm s') : InvRd c0 s' := by
+    (hak : s'.acks = s.acks ∨ ∃ x, s'.acks = x :: s.acks)
+    (hcf : s'.ccfgs = s.ccfgs ∨ ∃ x, s'.ccfgs = x :: s.ccfgs)
+    (hlen : s.ccfgs.length = s.cmts.length) (hl : Lcm s') : InvRd s' := by
+  have hF : ∀ r ∈ s.rd.issued, ccfgsAt s' r.ncm = ccfgsAt s r.ncm :=
+    fun r hr => ccfgsAt_stable hcf (by rw [hlen]; exact (hRd.bnd r hr).1)
   have hC : ∀ r ∈ s.rd.issued, cmtsAt s' r.ncm = cmtsAt s r.ncm :=
     fun r hr => cmtsAt_stable hcm (hRd.bnd r hr).1
   have hA : ∀ r ∈ s.rd.issued, acksAt s' r.nak = acksAt s r.nak :=
@@ -334,9 +353,10 @@ theorem invRd_transport {c0 : Cfg} {s s' : PSys} (hRd : InvRd c0 s) (hrd : s'.rd
   · intro r hr p hp
     rw [hrd] at hr
     rw [hC r hr] at hp
-    obtain ⟨q, hq, hv⟩ := hRd.qe r hr p hp
-    refine ⟨q, hq, ?_⟩
-    rw [hA r hr]; exact hv
+    obtain ⟨cfg, q, hm, hq, hv⟩ := hRd.qe r hr p hp
+    refine ⟨cfg, q, ?_, hq, ?_⟩
+    · rw [hF r hr]; exact hm
+    · rw [hA r hr]; exact hv
   · intro x hx
     rw [hrd] at hx
     obtain ⟨r, hr, h1, h2⟩ := hRd.st x hx
@@ -357,20 +377,20 @@ theorem invRd_transport {c0 : Cfg} {s s' : PSys} (hRd : InvRd c0 s) (hrd : s'.rd
 
 /-! ### the two arguments of the read layer -/
 
-theorem dterm_le_term {c0 : Cfg} {s : PSys} (hV : InvV c0 (vsys s)) (i : Nat) :
+theorem dterm_le_term {s : PSys} (hV : InvV (vsys s)) (i : Nat) :
     (s.nodes i).dterm ≤ (s.nodes i).term := by
   have := hV.dv i
   simp only [le2, VNode.d, VNode.vol, vsys, vproj] at this
   omega
 
 /-- a released acknowledgement carries a term not beyond its sender's current term -/
-theorem ack_term_le {c0 : Cfg} {s : PSys} (hI : InvAll c0 s) {a : Ack} (ha : a ∈ s.acks) :
+theorem ack_term_le {s : PSys} (hI : InvAll s) {a : Ack} (ha : a ∈ s.acks) :
     a.term ≤ (s.nodes a.frm).term :=
   Nat.le_trans (hI.r.ak a ha) (dterm_le_term hI.v a.frm)
 
 /-- a leader that has committed an entry of its own term: its commit index covers every leader commit
 of a term not beyond its own -/
-theorem start_covers {c0 : Cfg} {s : PSys} (hI : InvAll c0 s) (hl : Lcm s) (i : Nat)
+theorem start_covers {s : PSys} (hI : InvAll s) (hl : Lcm s) (i : Nat)
     (hrole : (s.nodes i).role = 2) (h0 : 0 < (s.nodes i).commit)
     (hta : termAt (s.nodes i).log (s.nodes i).commit = (s.nodes i).term)
     (p : Nat × Nat) (hp : p ∈ s.cmts) (hle : p.1 ≤ (s.nodes i).term) : p.2 ≤ (s.nodes i).commit := by
@@ -392,11 +412,12 @@ theorem start_covers {c0 : Cfg} {s : PSys} (hI : InvAll c0 s) (hl : Lcm s) (i : 
 
 /-- a leader whose leadership in its term was confirmed by a quorum after it registered request `rid`
 with read index `idx`: `idx` covers every leader commit that existed when `rid` was issued -/
-theorem read_confirmed {c0 : Cfg} (hne : c0.incoming ≠ [] ∨ c0.outgoing ≠ []) {s : PSys}
-    (hI : InvAll c0 s) (hRd : InvRd c0 s) (i rid idx : Nat) (r : ReadRec) (hr : r ∈ s.rd.issued)
+theorem read_confirmed {s : PSys} (cfg : Cfg)
+    (hI : InvAll s) (hRd : InvRd s) (i rid idx : Nat) (r : ReadRec) (hr : r ∈ s.rd.issued)
     (hrid : r.rid = rid)
     (hst : (⟨rid, i, (s.nodes i).term, idx⟩ : ReadStart) ∈ s.rd.started)
-    (hq : rdQuorum s c0 i (s.nodes i).term rid = true) :
+    (hq : rdQuorum s cfg i (s.nodes i).term rid = true)
+    (hcf : rdCfgOk s cfg (s.nodes i).term r.ncm = true) :
     ∀ p ∈ cmtsAt s r.ncm, p.2 ≤ idx := by
   obtain ⟨r', hr', hrid', hcov⟩ := hRd.st _ hst
   have e1 : r' = r := rid_unique hRd.uniq hr' hr (hrid'.trans hrid.symm)
@@ -404,9 +425,15 @@ theorem read_confirmed {c0 : Cfg} (hne : c0.incoming ≠ [] ∨ c0.outgoing ≠ 
   intro p hp
   apply hcov p hp
   show p.1 ≤ (s.nodes i).term
-  obtain ⟨q, hq1, hq2⟩ := hRd.qe r hr p hp
+  obtain ⟨cfgp, q, hm, hq1, hq2⟩ := hRd.qe r hr p hp
+  unfold rdCfgOk at hcf
+  simp only [List.all_eq_true, Bool.or_eq_true, decide_eq_true_eq] at hcf
+  have hor : adjOk cfgp cfg = true ∨ p.1 ≤ (s.nodes i).term := hcf (p, cfgp) hm
+  by_cases hle : p.1 ≤ (s.nodes i).term
+  · exact hle
+  have hadj : adjOk cfgp cfg = true := hor.resolve_right hle
   unfold rdQuorum at hq
-  obtain ⟨w, hw1, hw2⟩ := Cfg.quorums_intersect c0 hne q _ hq1 hq
+  obtain ⟨w, hw1, hw2⟩ := adj_intersect cfgp cfg hadj q _ hq1 hq
   obtain ⟨a, ha, hat, haf, _⟩ := hq2 w hw1
   have has : a ∈ s.acks := acksAt_sub ha
   rw [← hat]
@@ -426,9 +453,9 @@ theorem read_confirmed {c0 : Cfg} (hne : c0.incoming ≠ [] ∨ c0.outgoing ≠ 
 
 /-! ### the read events -/
 
-theorem invRd_read (c0 : Cfg) (hne : c0.incoming ≠ [] ∨ c0.outgoing ≠ []) (s s' : PSys) (r : REvent)
-    (hc : (Event.read r).cfgOk c0) (h : applyEvent s (.read r) = .ok s') (hI : InvAll c0 s)
-    (hRd : InvRd c0 s) : InvRd c0 s' := by
+theorem invRd_read (s s' : PSys) (r : REvent)
+    (h : applyEvent s (.read r) = .ok s') (hI : InvAll s)
+    (hRd : InvRd s) : InvRd s' := by
   obtain ⟨rd, hrd, hs'⟩ := read_apply h
   subst hs'
   cases r with
@@ -453,8 +480,11 @@ theorem invRd_read (c0 : Cfg) (hne : c0.incoming ≠ [] ∨ c0.outgoing ≠ []) 
         rcases List.mem_cons.mp hr with hr | hr
         · rw [hr] at hp ⊢
           have hp' : p ∈ s.cmts := cmtsAt_sub hp
-          obtain ⟨_, _, _, _, q, hq, hacks⟩ := hI.c.c3.cq p hp'
-          refine ⟨q, hq, ?_⟩
+          obtain ⟨_, _, _, _, cfg, q, hm, hq, hacks⟩ := hI.c.c3.cq p hp'
+          refine ⟨cfg, q, ?_, hq, ?_⟩
+          · show (p, cfg) ∈ ccfgsAt _ s.cmts.length
+            rw [← ccfgs_length hI.c.c3]
+            exact (ccfgsAt_full s).symm ▸ hm
           intro v hv
           obtain ⟨a, ha, h1⟩ := hacks v hv
           refine ⟨a, ?_, h1⟩
@@ -514,8 +544,6 @@ theorem invRd_read (c0 : Cfg) (hne : c0.incoming ≠ [] ∨ c0.outgoing ≠ []) 
       · exact hRd.hb h hh
     · cases hrd
   | resp i rid idx cfg =>
-    simp only [Event.cfgOk] at hc
-    subst hc
     simp only [applyRead] at hrd
     split at hrd
     · rename_i r hfind
@@ -532,15 +560,13 @@ theorem invRd_read (c0 : Cfg) (hne : c0.incoming ≠ [] ∨ c0.outgoing ≠ []) 
           · unfold SafeAnswer
             refine ⟨r, hr, by rw [hd]; exact hrid, by rw [hd], ?_⟩
             rw [hd]
-            exact read_confirmed hne hI hRd i rid idx r hr hrid
-              (by simpa using hg.2.2.1) hg.2.2.2
+            exact read_confirmed cfg hI hRd i rid idx r hr hrid
+              (by simpa using hg.2.2.1) hg.2.2.2.1 hg.2.2.2.2
           · exact hRd.safe d (Or.inl hd)
         · exact hRd.safe d (Or.inr hd)
       · cases hrd
     · cases hrd
   | rstate j rid idx cfg =>
-    simp only [Event.cfgOk] at hc
-    subst hc
     simp only [applyRead] at hrd
     split at hrd
     · rename_i r hfind
@@ -561,15 +587,15 @@ theorem invRd_read (c0 : Cfg) (hne : c0.incoming ≠ [] ∨ c0.outgoing ≠ []) 
             · unfold SafeAnswer
               refine ⟨r, hr, by rw [hd]; exact hrid, by rw [hd]; exact hg.2.1, ?_⟩
               rw [hd]
-              exact read_confirmed hne hI hRd j rid idx r hr hrid
-                (by simpa using hloc.2.1) hloc.2.2
+              exact read_confirmed cfg hI hRd j rid idx r hr hrid
+                (by simpa using hloc.2.1) hloc.2.2.1 hloc.2.2.2
           · exact hRd.safe d (Or.inr hd)
       · cases hrd
     · cases hrd
 
 /-! ### the invariant -/
 
-theorem invRd_init (c0 : Cfg) : InvRd c0 init := by
+theorem invRd_init : InvRd init := by
   constructor
   · simp [init]
   · intro r hr; simp [init] at hr
@@ -579,38 +605,51 @@ theorem invRd_init (c0 : Cfg) : InvRd c0 init := by
   · intro i _ p hp; simp [init] at hp
   · intro d hd; simp [init] at hd
 
-theorem invRd_step (c0 : Cfg) (hne : c0.incoming ≠ [] ∨ c0.outgoing ≠ []) (s s' : PSys) (e : Event)
-    (hc : e.cfgOk c0) (h : applyEvent s e = .ok s') (hI : InvAll c0 s) (hI' : InvAll c0 s')
-    (hRd : InvRd c0 s) : InvRd c0 s' := by
+theorem invRd_step (s s' : PSys) (e : Event)
+    (h : applyEvent s e = .ok s') (hI : InvAll s) (hI' : InvAll s')
+    (hRd : InvRd s) : InvRd s' := by
   by_cases hr : e.isRead = true
   · cases e with
-    | read r => exact invRd_read c0 hne s s' r hc h hI hRd
+    | read r => exact invRd_read s s' r h hI hRd
     | _ => simp [Event.isRead] at hr
   · have sh := step_shape s s' e h
-    exact invRd_transport hRd (sh.1 (by simpa using hr)) sh.2.1 sh.2.2
-      (lcm_step c0 hne s s' e hc h hI.v hI.l hI.c.c3 hRd.lcm)
+    exact invRd_transport hRd (sh.1 (by simpa using hr)) sh.2.1 sh.2.2.1 sh.2.2.2 (ccfgs_length hI.c.c3)
+      (lcm_step s s' e h hI.v hI.l hI.c.c3 hRd.lcm)
 
-theorem invRd_reach (c0 : Cfg) (hne : c0.incoming ≠ [] ∨ c0.outgoing ≠ []) (s : PSys) (h : ReachC c0 s) :
-    InvRd c0 s := by
+/-- `InvRd` holds in every reachable state (all histories, configurations may change) -/
+theorem invRd_reachR (s : PSys) (h : Reach s) : InvRd s := by
   induction h with
-  | init => exact invRd_init c0
-  | step e hr hc hs ih =>
-    exact invRd_step c0 hne _ _ e hc hs (invAll_reach c0 hne _ hr) (invAll_reach c0 hne _ (.step e hr hc hs)) ih
+  | init => exact invRd_init
+  | step e hr hs ih =>
+    exact invRd_step _ _ e hs (invAll_reachR _ hr) (invAll_reachR _ (.step e hr hs)) ih
+
+/-- corollary: the fixed-configuration histories -/
+theorem invRd_reach (c0 : Cfg) (hne : c0.incoming ≠ [] ∨ c0.outgoing ≠ []) (s : PSys) (h : ReachC c0 s) :
+    InvRd s :=
+  invRd_reachR s (reach_of_reachC h)
 
 /-! ### consequences -/
 
 /-- every read state handed to the application is safe -/
+theorem read_done_safeR (s : PSys) (h : Reach s) (d : ReadResp) (hd : d ∈ s.rd.done) : SafeAnswer s d :=
+  (invRd_reachR s h).safe d (Or.inr hd)
+
+/-- every released read-index response is safe -/
+theorem read_resp_safeR (s : PSys) (h : Reach s) (d : ReadResp) (hd : d ∈ s.rd.resps) : SafeAnswer s d :=
+  (invRd_reachR s h).safe d (Or.inl hd)
+
+/-- corollary for the fixed-configuration histories -/
 theorem read_done_safe (c0 : Cfg) (hne : c0.incoming ≠ [] ∨ c0.outgoing ≠ []) (s : PSys) (h : ReachC c0 s)
     (d : ReadResp) (hd : d ∈ s.rd.done) : SafeAnswer s d :=
   (invRd_reach c0 hne s h).safe d (Or.inr hd)
 
-/-- every released read-index response is safe -/
+/-- corollary for the fixed-configuration histories -/
 theorem read_resp_safe (c0 : Cfg) (hne : c0.incoming ≠ [] ∨ c0.outgoing ≠ []) (s : PSys) (h : ReachC c0 s)
     (d : ReadResp) (hd : d ∈ s.rd.resps) : SafeAnswer s d :=
   (invRd_reach c0 hne s h).safe d (Or.inl hd)
 
 /-- a request context identifies its record -/
-theorem issued_rid_unique {c0 : Cfg} {s : PSys} (hRd : InvRd c0 s) {a b : ReadRec}
+theorem issued_rid_unique {s : PSys} (hRd : InvRd s) {a b : ReadRec}
     (ha : a ∈ s.rd.issued) (hb : b ∈ s.rd.issued) (he : a.rid = b.rid) : a = b :=
   rid_unique hRd.uniq ha hb he
 
@@ -700,16 +739,16 @@ theorem issued_run (es : List Event) : ∀ (s s' : PSys), run s es = .ok s' →
       have l1 : s.cmts.length ≤ s1.cmts.length := by
         rcases sh.2.1 with h | ⟨x, h⟩ <;> rw [h] <;> simp
       have l2 : s.acks.length ≤ s1.acks.length := by
-        rcases sh.2.2 with h | ⟨x, h⟩ <;> rw [h] <;> simp
+        rcases sh.2.2.1 with h | ⟨x, h⟩ <;> rw [h] <;> simp
       obtain ⟨a, b, c⟩ := ih s1 s' h r (issued_step s s1 e hs1 r hr) (by omega) (by omega)
-      exact ⟨a, b.trans (cmtsAt_stable sh.2.1 h1), c.trans (acksAt_stable sh.2.2 h2)⟩
+      exact ⟨a, b.trans (cmtsAt_stable sh.2.1 h1), c.trans (acksAt_stable sh.2.2.1 h2)⟩
     · cases h
 
 /-- what `issue` records stays valid forever: after `issue i rid` in state `s` and any further history
 leading to a state `s2` satisfying `InvRd` (e.g. any reachable one), the record with context `rid` is
 unique, was issued on `i`, and refers to exactly the leader commits / released acknowledgements of `s` -/
-theorem issue_records_forever {c0 : Cfg} (s s1 s2 : PSys) (i rid : Nat) (es : List Event)
-    (h : applyEvent s (.read (.issue i rid)) = .ok s1) (hrun : run s1 es = .ok s2) (hRd : InvRd c0 s2) :
+theorem issue_records_forever (s s1 s2 : PSys) (i rid : Nat) (es : List Event)
+    (h : applyEvent s (.read (.issue i rid)) = .ok s1) (hrun : run s1 es = .ok s2) (hRd : InvRd s2) :
     ∃ r ∈ s2.rd.issued, r.rid = rid ∧ r.node = i ∧ cmtsAt s2 r.ncm = s.cmts ∧ acksAt s2 r.nak = s.acks ∧
       ∀ r' ∈ s2.rd.issued, r'.rid = rid → r' = r := by
   obtain ⟨r, hiss, hrid, hnode, hncm, hnak, hc, ha, hcm, hak, _⟩ := issue_records s s1 i rid h
